@@ -380,6 +380,44 @@ def cert_enc(certs):
     return hx(TlsHandshakeCertificate(TlsCertificates([TlsCertificate(bytes.fromhex(c)) for c in ([] if certs == '-' else certs.split(','))])).compose())
 
 
+def certreq_enc(types, sa, cas):
+    from cryptodatahub.tls.algorithm import TlsSignatureAndHashAlgorithm
+    from cryptoparser.tls.subprotocol import TlsHandshakeCertificateRequest, TlsDistinguishedName, TlsClientCertificateType
+    ts = []
+    for c in _zs(types):
+        ms = [m for m in TlsClientCertificateType if int(m) == c]
+        ts.append(ms[0] if ms else c)
+    algs = None if sa == '_' else [_member_or_invalid(TlsSignatureAndHashAlgorithm, c, 2) for c in _zs(sa)]
+    names = [TlsDistinguishedName(list(bytes.fromhex(h))) for h in ([] if cas == '-' else cas.split(','))]
+    return hx(TlsHandshakeCertificateRequest(ts, names, algs).compose())
+
+
+def certreq_dec(w, h):
+    from cryptoparser.tls.subprotocol import TlsHandshakeCertificateRequest
+    o, n = TlsHandshakeCertificateRequest.parse_immutable(bytes.fromhex(h))
+    sa = o.supported_signature_algorithms
+    if (sa is not None) != (w == '1'):
+        raise RoundTripError('supported_signature_algorithms %s' % ('missing' if sa is None else 'invented'))
+    return '%s;%s;%s n=%d' % (','.join(str(int(t)) for t in o.certificate_types),
+                              '_' if sa is None else ','.join(str(x.value.code if hasattr(x.value, 'code') else int.from_bytes(bytes(x.compose()), 'big')) for x in sa),
+                              ','.join(hx(bytes(bytearray(x))) for x in o.certificate_authorities), n)
+
+
+def certst_enc(ty, h):
+    from cryptoparser.tls.subprotocol import TlsHandshakeCertificateStatus
+    from cryptoparser.tls.extension import TlsCertificateStatusType
+    ms = [m for m in TlsCertificateStatusType if int(m) == int(ty)]
+    if not ms:
+        raise TypeError('not constructible')
+    return hx(TlsHandshakeCertificateStatus(ms[0], bytes.fromhex('' if h == '-' else h)).compose())
+
+
+def certst_dec(h):
+    from cryptoparser.tls.subprotocol import TlsHandshakeCertificateStatus
+    o, n = TlsHandshakeCertificateStatus.parse_immutable(bytes.fromhex(h))
+    return '%d %s n=%d' % (int(o.status_type), hx(o.status), n)
+
+
 def shd_enc():
     from cryptoparser.tls.subprotocol import TlsHandshakeServerHelloDone
     return hx(TlsHandshakeServerHelloDone().compose())
@@ -526,6 +564,38 @@ def ovpn_ctl(op, sess, acks, remote, pid, h):
     return hx(obj.compose())
 
 
+def ovpn_ack(sess, acks, remote):
+    from cryptoparser.tls import openvpn
+    a = _zs(acks)
+    return hx(openvpn.OpenVpnPacketAckV1(int(sess), int(remote) if a or int(remote) % 2 else None, a).compose())
+
+
+def ovpn_hrc(sess, pid):
+    from cryptoparser.tls import openvpn
+    return hx(openvpn.OpenVpnPacketHardResetClientV2(int(sess), int(pid)).compose())
+
+
+def ovpn_hrs(sess, acks, remote, pid):
+    from cryptoparser.tls import openvpn
+    a = _zs(acks)
+    return hx(openvpn.OpenVpnPacketHardResetServerV2(int(sess), int(remote) if a or int(remote) % 2 else None, a, int(pid)).compose())
+
+
+def ovpn_dec(h):
+    """parse through the packet variant; the body (what follows the header) is re-assembled from the fields of the class"""
+    from cryptoparser.tls import openvpn
+    data = bytes.fromhex(h)
+    o, n = openvpn.OpenVpnPacketVariant.parse_immutable(data)
+    body = b''
+    if hasattr(o, 'packet_id'):
+        body += int(o.packet_id).to_bytes(4, 'big')
+    if hasattr(o, 'payload'):
+        body += bytes(o.payload)
+    body += data[n:]
+    return '%d %d %s %s %s' % (int(o.get_op_code()), o.session_id, ','.join(str(x) for x in o.packet_id_array) or '-',
+                               '_' if o.remote_session_id is None else str(o.remote_session_id), hx(body) or '-')
+
+
 def ovpn_tcp(h):
     return c_frame('ovpn', '-', '' if h == '-' else h)
 
@@ -608,6 +678,85 @@ def kex_dec(h):
     return '%s %s %d %d' % (hx(k.cookie), '|'.join(_show_vec(v) for v in vs), int(k.first_kex_packet_follows), k.reserved)
 
 
+def _mp_payload(z):
+    """RFC 4251 mpint payload of a non-negative integer, computed here independently of library and model"""
+    z = int(z)
+    return z.to_bytes(z.bit_length() // 8 + 1, 'big') if z else b''
+
+
+def _mp_value(b):
+    return int.from_bytes(bytes(b), 'big', signed=True)
+
+
+def _ssh_variant(ctx):
+    from cryptoparser.ssh import subprotocol as sp
+    return {'init': sp.SshMessageVariantInit, 'kexdh': sp.SshMessageVariantKexDH, 'gex': sp.SshMessageVariantKexDHGroup}[ctx]
+
+
+def _hx_or_empty(h):
+    return bytes.fromhex('' if h == '-' else h)
+
+
+def ssh_msg(name, *a):
+    """compose a transport-layer message from its field values; the composed bytes must parse back, through the message
+    variant of its key-exchange context, to an equal object"""
+    from cryptoparser.ssh import subprotocol as sp
+    from cryptoparser.ssh.key import SshHostPublicKeyVariant
+    ctx = 'init'
+    if name == 'disc':
+        rs = [m for m in sp.SshReasonCode if int(m) == int(a[0])]
+        if not rs:
+            raise TypeError('not constructible')
+        obj = sp.SshDisconnectMessage(rs[0], _hx_or_empty(a[1]).decode('utf-8'), _hx_or_empty(a[2]).decode('ascii'))
+    elif name == 'unimpl':
+        obj = sp.SshUnimplementedMessage(int(a[0]))
+    elif name == 'newkeys':
+        obj, ctx = sp.SshNewKeys(), 'kexdh'
+    elif name == 'dhinit':
+        obj, ctx = sp.SshDHKeyExchangeInit(_mp_payload(a[0])), 'kexdh'
+    elif name == 'gexinit':
+        obj, ctx = sp.SshDHGroupExchangeInit(_mp_payload(a[0])), 'gex'
+    elif name in ('dhreply', 'gexreply'):
+        cls, ctx = (sp.SshDHKeyExchangeReply, 'kexdh') if name == 'dhreply' else (sp.SshDHGroupExchangeReply, 'gex')
+        obj = cls(SshHostPublicKeyVariant.parse_exact_size(bytes.fromhex(a[0])), _mp_payload(a[1]), _hx_or_empty(a[2]))
+    elif name == 'gexreq':
+        obj, ctx = sp.SshDHGroupExchangeRequest(int(a[0]), int(a[1]), int(a[2])), 'gex'
+    elif name == 'gexgroup':
+        obj, ctx = sp.SshDHGroupExchangeGroup(_mp_payload(a[0]), _mp_payload(a[1])), 'gex'
+    else:
+        raise KeyError(name)
+    composed = bytes(obj.compose())
+    for c in ([ctx, 'gex'] if name == 'newkeys' else [ctx]):
+        back = parse_back(_ssh_variant(c), composed)
+        if type(back) is not type(obj) or back != obj:
+            raise RoundTripError('parse(compose(x)) differs from x')
+    return hx(composed)
+
+
+def ssh_msg_dec(ctx, h):
+    """parse through the message variant of the context and show the fields in the layout language of the specification"""
+    from cryptoparser.ssh import subprotocol as sp
+    obj, n = _ssh_variant(ctx).parse_immutable(bytes.fromhex(h))
+    code = int(obj.get_message_code())
+    if isinstance(obj, sp.SshDisconnectMessage):
+        fs = ['U%d' % int(obj.reason), 'S' + obj.description.encode('utf-8').hex(), 'S' + str(obj.language).encode('ascii').hex()]
+    elif isinstance(obj, sp.SshUnimplementedMessage):
+        fs = ['U%d' % obj.sequence_number]
+    elif isinstance(obj, sp.SshNewKeys):
+        fs = []
+    elif isinstance(obj, sp.SshDHKeyExchangeInitBase):
+        fs = ['M%d' % _mp_value(obj.ephemeral_public_key)]
+    elif isinstance(obj, sp.SshDHKeyExchangeReplyBase):
+        fs = ['S' + hx(obj.host_public_key.key_bytes), 'M%d' % _mp_value(obj.ephemeral_public_key), 'S' + hx(obj.signature)]
+    elif isinstance(obj, sp.SshDHGroupExchangeRequest):
+        fs = ['U%d' % obj.gex_min, 'U%d' % obj.gex_number, 'U%d' % obj.gex_max]
+    elif isinstance(obj, sp.SshDHGroupExchangeGroup):
+        fs = ['M%d' % _mp_value(obj.p), 'M%d' % _mp_value(obj.g)]
+    else:
+        raise TypeError('unexpected class %s' % type(obj).__name__)
+    return ' '.join(['B%d' % code] + fs) + ' n=%d' % n
+
+
 def hassh_cmd(h, side):
     from cryptoparser.ssh.subprotocol import SshKeyExchangeInit
     k, _ = SshKeyExchangeInit.parse_immutable(bytes.fromhex(h))
@@ -631,6 +780,17 @@ def dss_blob(p, q, g, y):
     from cryptodatahub.ssh.algorithm import SshHostKeyAlgorithm
     from cryptoparser.ssh.key import SshHostKeyDSS
     return SshHostKeyDSS(SshHostKeyAlgorithm.SSH_DSS, PublicKey.from_params(PublicKeyParamsDsa(prime=int(p), generator=int(g), order=int(q), public_key_value=int(y))))
+
+
+def ec_blob(ident, size, x, y):
+    from cryptodatahub.common.key import PublicKey, PublicKeyParamsEcdsa
+    from cryptodatahub.ssh.algorithm import SshHostKeyAlgorithm, SshEllipticCurveIdentifier
+    from cryptoparser.ssh.key import SshHostKeyECDSA
+    name = bytes.fromhex(ident).decode('ascii')
+    alg = [a for a in SshHostKeyAlgorithm if a.value.code == 'ecdsa-sha2-' + name][0]
+    group = [c for c in SshEllipticCurveIdentifier if c.value.code == name][0].value.named_group
+    assert (group.value.size + 7) // 8 == int(size)
+    return SshHostKeyECDSA(alg, PublicKey.from_params(PublicKeyParamsEcdsa(named_group=group, point_x=int(x), point_y=int(y))))
 
 
 def ed_blob(kh):
@@ -708,6 +868,42 @@ def dnskey_rsa_enc(flags, alg, e, m):
     fl = [f for f in DnsSecFlag if int(flags) & int(f)]
     key = PublicKey.from_params(PublicKeyParamsRsa(public_exponent=int(e), modulus=int.from_bytes(bytes.fromhex(m), 'big')))
     return hx(DnsRecordDnskey(fl, _dns_enum(DnsSecAlgorithm, int(alg)), key, DnsSecProtocol.V3).compose())
+
+
+def dnskey_ec_enc(flags, alg, x, y):
+    """an ECDSA DNSKEY built from a point on the curve RFC 6605 assigns to the algorithm number"""
+    from cryptodatahub.common.algorithm import NamedGroup
+    from cryptodatahub.common.key import PublicKey, PublicKeyParamsEcdsa
+    from cryptodatahub.dnsrec.algorithm import DnsSecAlgorithm
+    from cryptoparser.dnsrec.record import DnsRecordDnskey, DnsSecFlag, DnsSecProtocol
+    fl = [f for f in DnsSecFlag if int(flags) & int(f)]
+    group = {13: NamedGroup.PRIME256V1, 14: NamedGroup.SECP384R1}[int(alg)]
+    key = PublicKey.from_params(PublicKeyParamsEcdsa(named_group=group, point_x=int(x), point_y=int(y)))
+    return hx(DnsRecordDnskey(fl, _dns_enum(DnsSecAlgorithm, int(alg)), key, DnsSecProtocol.V3).compose())
+
+
+def dnskey_ed_enc(flags, alg, k):
+    from cryptodatahub.common.algorithm import NamedGroup
+    from cryptodatahub.common.key import PublicKey, PublicKeyParamsEddsa
+    from cryptodatahub.dnsrec.algorithm import DnsSecAlgorithm
+    from cryptoparser.dnsrec.record import DnsRecordDnskey, DnsSecFlag, DnsSecProtocol
+    fl = [f for f in DnsSecFlag if int(flags) & int(f)]
+    curve = {15: NamedGroup.CURVE25519, 16: NamedGroup.CURVE448}[int(alg)]
+    key = PublicKey.from_params(PublicKeyParamsEddsa(curve_type=curve, key_data=bytes.fromhex(k)))
+    return hx(DnsRecordDnskey(fl, _dns_enum(DnsSecAlgorithm, int(alg)), key, DnsSecProtocol.V3).compose())
+
+
+def dnskey_dec(h):
+    from cryptodatahub.common.key import PublicKeyParamsEcdsa, PublicKeyParamsEddsa
+    from cryptoparser.dnsrec.record import DnsRecordDnskey
+    o = DnsRecordDnskey.parse_exact_size(bytes.fromhex(h))
+    head = '%d %d' % (sum(int(f) for f in o.flags), int(o.algorithm.value.code))
+    p = o.key.params
+    if isinstance(p, PublicKeyParamsEcdsa):
+        return '%s EC %s %d %d' % (head, p.named_group.value.oid, p.point_x, p.point_y)
+    if isinstance(p, PublicKeyParamsEddsa):
+        return '%s ED %s' % (head, hx(p.key_data))
+    raise TypeError('unexpected key type')
 
 
 # ---- framing units -----------------------------------------------------------------------------------
@@ -1125,12 +1321,12 @@ COMMANDS = {
     'bannerenc': banner_enc, 'bannerdec': banner_dec,
     'nvl': nvl_cmd, 'fvm': fvm_cmd, 'hline': hline_cmd, 'pssl2': pssl2_cmd, 'cssl2': cssl2_cmd, 'pssh': pssh_cmd, 'cssh': cssh_cmd, 'sts': sts_cmd,
     'tpktenc': tpkt_enc, 'cotpenc': cotp_enc, 'pcotp': p_cotp, 'rdpnegenc': rdp_neg_enc, 'mysqlpktenc': mysql_pkt_enc,
-    'mysqlssl41': mysql_ssl41, 'mysqlhs': mysql_hs, 'mysqlssl320': mysql_ssl320, 'ovpnctl': ovpn_ctl, 'ovpntcp': ovpn_tcp, 'pgssl': pg_ssl,
-    'sshpad': ssh_pad, 'mpintspec': mpint_spec, 'kexenc': kex_enc, 'kexdec': kex_dec,
-    'rsablob': blob_cmd(rsa_blob), 'dssblob': blob_cmd(dss_blob), 'edblob': blob_cmd(ed_blob),
+    'mysqlssl41': mysql_ssl41, 'mysqlhs': mysql_hs, 'mysqlssl320': mysql_ssl320, 'ovpnctl': ovpn_ctl, 'ovpntcp': ovpn_tcp, 'ovpnack': ovpn_ack, 'ovpnhrc': ovpn_hrc, 'ovpnhrs': ovpn_hrs, 'ovpndec': ovpn_dec, 'pgssl': pg_ssl,
+    'sshpad': ssh_pad, 'mpintspec': mpint_spec, 'kexenc': kex_enc, 'kexdec': kex_dec, 'sshmsg': ssh_msg, 'sshmsgdec': ssh_msg_dec,
+    'rsablob': blob_cmd(rsa_blob), 'dssblob': blob_cmd(dss_blob), 'edblob': blob_cmd(ed_blob), 'ecblob': blob_cmd(ec_blob),
     'keytag': keytag_cmd, 'dsenc': ds_enc, 'mxenc': mx_enc, 'nameenc': name_enc, 'txtenc': txt_enc, 'rrsigenc': rrsig_enc,
-    'dnskeyrsaenc': dnskey_rsa_enc,
-    'chenc': ch_enc, 'ssl2chenc': ssl2_ch_enc, 'ssl2shenc': ssl2_sh_enc, 'chdec': ch_dec, 'ja3impl': ja3_cmd, 'shenc': sh_enc, 'certenc': cert_enc, 'shdenc': shd_enc,
+    'dnskeyrsaenc': dnskey_rsa_enc, 'dnskeyecenc': dnskey_ec_enc, 'dnskeyedenc': dnskey_ed_enc, 'dnskeydec': dnskey_dec,
+    'chenc': ch_enc, 'ssl2chenc': ssl2_ch_enc, 'ssl2shenc': ssl2_sh_enc, 'chdec': ch_dec, 'ja3impl': ja3_cmd, 'shenc': sh_enc, 'certenc': cert_enc, 'shdenc': shd_enc, 'certreqenc': certreq_enc, 'certreqdec': certreq_dec, 'certstenc': certst_enc, 'certstdec': certst_dec,
     'recenc': rec_enc, 'alertenc': alert_enc, 'ccsenc': ccs_enc, 'extenc': ext_enc,
     'pframe': p_frame, 'xframe': x_frame, 'mframe': m_frame, 'cframe': c_frame,
     'popq': p_opq, 'copq': c_opq,
